@@ -118,6 +118,12 @@ check('C17', E2 + ' + fake ssh server state machine',
       'server is a model (no echo; one of sh/csh/zsh prompt syntaxes); "password prompt" = output matching the password regex; timeouts virtual',
       'DESIGN.md 3 C17')
 
+check('C15', E2 + ' with two harness-owned ptys',
+      'enumeration of keystroke streams x splittings x merge orders with child output chunks x configurations, with a deviation-bounded DFS over the placement of the peer actions among interact()\'s system calls',
+      'interact() runs between an inner pty (child) and an outer pty (the user\'s terminal) both held by the harness: the screen must equal pending buffer + child output (through output_filter), the child must receive the keystrokes (through input_filter) up to but excluding the first escape character, interact returns on escape and on child exit, termios restored.',
+      'keystrokes / child output served from harness-side buffers (pty delivery is asynchronous); schedule deviation bound 1 (quick) / 2 (thorough); keystroke alphabet of 5 bytes, <= 4 keys',
+      'DESIGN.md 3 C15')
+
 NOT_BUILT = {}
 
 
